@@ -105,7 +105,9 @@ func profileFor0(name string) *Profile {
 		p.ScaleW = []int{3, 2, 3, 3}
 		p.BatchP = 0.3
 	case "C16":
-		p.W["sendodd"], p.W["byz"], p.W["sendout"] = 14, 10, 8
+		p.W["sendodd"], p.W["byz"], p.W["sendout"], p.W["dust"] = 14, 10, 8, 10
+		p.InitLimitP = 0.6
+		p.PassW = []int{3, 4, 2, 1}
 	case "C17":
 		p.Checkpoint = []string{"genesis"}
 		p.W["checkpoint"], p.W["orbadmin"] = 2, 14
